@@ -126,9 +126,10 @@ type W struct {
 	long    []byte // long-contents families: decoder input
 	d       dests
 
-	// allVariants: the trailing-octet and other-identifier variants run on every
-	// accepted 3-octet INTEGER / OID case (thorough tier, replay) instead of the
-	// slice described in the rule text (INTEGER: first and last octet in edge6; OID: last octet in edge6).
+	// allVariants (thorough tier, replay): the trailing-octet and other-identifier
+	// variants run on every accepted 3-octet OID body and on the accepted 3-octet
+	// INTEGER contents whose last octet is in edge6, instead of the quick tier's
+	// slices (INTEGER: first and last octet in edge6; OID: last octet in edge6).
 	allVariants bool
 }
 
@@ -502,7 +503,7 @@ func main() {
 			"BIT STRING: all bodies of 0..3 octets (pad octet + 0..2 content octets); " +
 			"long elements (harness DER length helper): INTEGER, BIT STRING, OBJECT IDENTIFIER with 127,128,129,255,256,257 content octets, OCTET STRING with 0,1,2,126..129,255..257 (INTEGER, BIT STRING, OCTET STRING also 65535, 65536), each x length form {DER, long form with 1 or 2 superfluous leading zero octets, 0x81 L for L<128, indefinite with end-of-contents} x {complete, last content octet missing} x first/second/last content octet over type-specific edge sets x fill generators (position-dependent octets; OID: 1-, 2- and 3-octet arcs); " +
 			"variants: every case of <= 2 content octets, of the boundary and long families and every BIT STRING / GeneralizedTime case that some decoder accepts is decoded again (a) followed by one octet 0xff: consumed length and rest must be exact, (b) under the 7 other identifier octets with the same tag number (constructed bit, the three other classes, both; relative to the tag the caller passes for ReadASN1Int64WithTag): every target that states its expected identifier must reject (interface{} destinations are ANY and are skipped); " +
-			"of the 2^24 three-octet INTEGER contents the quick tier takes those with first and last octet in E6, of the three-octet OID bodies those with last octet in E6, of the four-octet OID bodies those with all octets in B8 (thorough: all three-octet cases; boundary-family bodies of 3 or 4 octets follow the same slices); " +
+			"of the 2^24 three-octet INTEGER contents the quick tier takes those with first and last octet in E6, of the three-octet OID bodies those with last octet in E6, of the four-octet OID bodies those with all octets in B8 (thorough: all three-octet OID bodies, and the three-octet INTEGER contents with last octet in E6; boundary-family bodies of 3 or 4 octets follow the same slices); " +
 			"headers: every 1,2,3-octet prefix, every 4,5,6-octet header (identifier+length octets spanning or overrunning the prefix) with octets 3.. over {00,01,7f,80,ff}, " +
 			"a high-tag-number family (8 leading octets x 1..6 subsequent octets over {00,1e,1f,7f,80,87,88,ff} x length {00,01}) and a long length-of-length family (1..9,126,127 length octets), " +
 			"each completed with position-dependent contents (offset i of the input holds byte(131i+7)^byte(i>>8)^byte(i>>15)) of the declared length when that is at most 2^17 (thorough: at most 2^24 for the 8 identifier octets with tag number 4), plus one-short and one-long variants up to 300 octets, otherwise left truncated; " +
